@@ -262,6 +262,12 @@ void round_trip(const A15Plan *p)
         return;
       }
   }
+  if (p->mode == 1 && cut < total)
+    for (size_t e : ends)
+      if (e == cut) {
+        a15_probe(1);
+        break;
+      }
   a15_note_cut(total, cut, before, threw_at);
 }
 
